@@ -19,7 +19,12 @@ pub fn entrypoint_declarations<TCompilationProfile: CompilationProfile>(
     db: &IsographDatabase<TCompilationProfile>,
 ) -> Vec<EntrypointDeclaration> {
     let mut out = vec![];
-    for (_relative_path, iso_literals_source_id) in db.get_iso_literal_map().tracked().0.iter() {
+    // The map is a HashMap: visit the files in a fixed order, so that which of several declarations
+    // of the same entrypoint wins does not vary from one compile to the next.
+    let iso_literal_map = db.get_iso_literal_map();
+    let mut iso_literal_sources = iso_literal_map.tracked().0.iter().collect::<Vec<_>>();
+    iso_literal_sources.sort_by_key(|(relative_path, _)| **relative_path);
+    for (_relative_path, iso_literals_source_id) in iso_literal_sources {
         for result in parse_iso_literal_in_source(db, *iso_literals_source_id) {
             if let Ok((IsoLiteralExtractionResult::EntrypointDeclaration(e), _)) = result {
                 out.push(e.item.clone().note_todo("Do not clone. Use a MemoRef."));
